@@ -705,6 +705,11 @@ func (c *fileCtx) selectStmt(n *ast.SelectStmt, isLabeled bool) bool {
 	}
 	call += ")"
 	c.edits = append(c.edits, edit{c.off(n.Select), c.off(n.Body.Lbrace) + 1, fmt.Sprintf("{ %sswitch __s%d := %s; __s%d.K {", hoist.String(), id, call, id)})
+	if !hasDefault {
+		// A select whose every case ends in a return is a terminating statement;
+		// a switch is one only if it has a default clause.
+		c.edits = append(c.edits, edit{c.off(n.Body.Rbrace), c.off(n.Body.Rbrace), "; default: panic(\"simrt: select returned no case\"); "})
+	}
 	c.edits = append(c.edits, edit{c.off(n.End()), c.off(n.End()), " }"})
 	sum.ChanOps++
 	sum.Selects++
